@@ -436,9 +436,11 @@ RULES.update({
     'C06': 'Each seed draws a data set (6..24 x 1..5, 1..2 responses or class labels), a learner (PLS/MLR/LDA), a routine (BootstrapRandomGroupsCV, YScrambling over LOO / over bootstrap, KMeansRandomGroupsCV, PCARankValidation, concurrent group-generator callers), a thread count (bootstrap: a divisor of the iteration count), a simulated processor count, a strategy S0-S4, a clock origin and optionally a concurrent noise caller of the generator API; three simulated executions per seed (sequential reference, canonical schedule, explored schedule).',
     'C05': 'Each seed draws a data set (6..30 x 1..6, 1..3 responses), a learner, a routine (LeaveOneOut, KFoldCV with balanced/unbalanced/non-contiguous user labels, BootstrapRandomGroupsCV, direct calls of the group generators), group/iteration/thread counts and a schedule; oracles: partition, public-API refit on the other folds, own-response insensitivity, fold inference for one-iteration bootstrap, finite predictions, residual definition.',
     'C18': 'Each seed draws a routine (PCA, PLS, CPCA, LeaveOneOut with MLR, KMeans with every initialiser, NelderMeadSimplex), a degeneracy class (rank-deficient integer outer products, constant columns, all-constant, duplicated rows, tiny shapes, more components than rank, constant / two-valued responses, constant block, duplicated points, flat objective), shape, component count, scaling, optional 2^-k perturbation and a simulated processor count; the call runs under a step budget of 20000 x (steps of the same routine on a regular problem of the same shape, measured in the same run) + 1e6, and is unwound in-process when the budget is exhausted.',
+    'C14': 'Each seed draws a history of 1..40 operations over pools of 4 live containers per kind (matrix, dvector, uivector, ivector, strvector, tensor, dvectorlist; a random subset of kinds is enabled per run): create, resize, copy into fresh and live destinations, append rows/columns whose length is drawn around the current shape (zero, shorter, equal, longer), delete, set/get in and out of range, extend, sort, remove, re-initialise. The allocator hands out NaN-garbage-filled blocks, moves blocks on realloc by a per-run coin, and in 20% of the histories fails the k-th allocation of one operation. After every operation all 28 containers are compared cell by cell with std::vector shadows. ASan+UBSan build.',
     'C16': 'Each seed draws a pool of 2..4 PCA/CPCA/PLS models (fitted on data scaled by 1e-9..1e9, or synthetic with fields of those magnitudes and empty optional fields) and a history of 1..5 Write/Read operations over 1..2 paths; 40% of histories attach one fault to one write (I/O error, disk full, short write, kill with or without torn last write) at a VFS call drawn uniformly over the call count of that very operation (measured by a dry run on a copy). Reads are checked against a reference map path -> last write that completed without a fault.',
 })
 ASSUMPTIONS = {
+    'C14': ['leaks are not violations', 'UBSan nonnull-attribute (qsort(NULL,0), memcpy(NULL,..,0)) is disabled: no memory is touched', 'NewStrVector(n>0) and NewDVectorList(n>0) are not generated (their elements are documented as to-be-filled by the caller)', 'TensorAppendRow is not generated (its own check contradicts its name)'],
     'C18': ['a call that uses more than 20000 times the steps of a regular call of the same shape is declared non-terminating (largest ratio observed for terminating calls is reported under counters max.steps_ratio_to_regular.*)', 'numerical rank is decided by a long-double elimination with a clear pivot gap; ambiguous cases skip the rank-dependent checks'],
     'C16': ['durability across power loss is not asserted (the property does not quantify over crash points)', 'a path whose last write was faulted is indeterminate until the next clean write and is not read', 'failed opens of the database file itself are not injected (the library does not survive them; not a C16 matter)'],
     'C06': ['for fork-join code a race-free execution on an input implies schedule independence on that input (Feng-Leiserson); unknown synchronisation primitives downgrade race reports'],
